@@ -228,7 +228,7 @@ class LCDDocFilter(DocumentFilter):
 
       fingerprint = (
           region.get_begin() or 0,
-          region.get_end() or None,
+          region.get_end(),
           writing_mode,
           new_display_align
         )
